@@ -169,6 +169,7 @@ def main(tier, seed):
         witness = {"point": label.split("#")[0].split("@")[0], "label": label, "init": [st, bn], "gflags": gflags, "killed": killed,
                    "fs_after_kill": list(fs_state)}
         files = {"trace.ndjson": trace, "rerun-stderr.txt": r2.stderr[-4000:], "crashed-stderr.txt": err1.decode("utf-8", "replace")[-2000:]}
+        do_pipeline = False
         with lock:
             chk.case([label, st, bn, gflags], sample=witness if idx % 6 == 0 else None, nontrivial=killed)
             if r2.returncode != 0:
@@ -185,6 +186,10 @@ def main(tier, seed):
             if not ok:
                 print(f"MODEL-MISMATCH: property=C18 crash point {label}: linker events of killed build + rerun are not a behaviour of Linker.tla", flush=True)
                 chk.extra.setdefault("rejected_traces", []).append(label)
+            # whole process trees of the killed build and of the rerun against Pipeline.tla (kill as a harness event)
+            do_pipeline = killed and not gflags and (tier == "thorough" or idx % 7 == 0)
+        if do_pipeline:
+            validate_pipeline(chk, events, src, sb, kills={"crashed": True}, label=f"crash-{label}", cold_gk=True, linker_init=(st, bn))
         rmtree(root)
 
     parallel(experiment, list(enumerate(points)), workers=4)
